@@ -7,8 +7,10 @@
 (* case = [id, sfs, prog]                                                    *)
 (*   sfs.src, sfs.tgt   initial / final stack (top first): variable names or  *)
 (*                      constant names "#ff"                                 *)
-(*   sfs.ins            [id, op, inp, out, w]: w = bytes of the pushed word   *)
-(*                      for PUSH-like instructions                            *)
+(*   sfs.ins            [id, op, inp, out, w, comm]: w = bytes of the pushed  *)
+(*                      word for PUSH-like instructions; comm = the           *)
+(*                      specification lets a back-end feed the two operands   *)
+(*                      in either order                                      *)
 (*   sfs.deps           happens-before pairs <<a, b>>                         *)
 (*   sfs.cw             record: constant name -> little-endian bytes          *)
 (*   prog               the sub-block's instructions (EVM.tla form)           *)
@@ -17,7 +19,9 @@
 (* TLC explores all orders (the reachable states are the order ideals).       *)
 (* At completion: <<tgt values, memory, storage>> = Run(prog).                *)
 (* OverlapOrdered: two operations enabled together commute on the current     *)
-(* concrete state.                                                           *)
+(* concrete state.  OrderFree: an instruction flagged commutative has the     *)
+(* same value with its operands swapped (the flag is part of the meaning:     *)
+(* greedy, the encoder and the checker all accept either operand order).      *)
 (***************************************************************************)
 EXTENDS EVM, Grid, Json, IOUtils
 
@@ -72,6 +76,13 @@ Ev(S, x, st0, vl) ==
 SupportedOp(op) == op \in MemKinds \cup BinOps \cup Env0Ops \cup Env1Ops \cup PushOps
                           \cup {"ISZERO", "NOT", "ADDMOD", "MULMOD", "PUSH0"}
 Supported(S) == \A i \in 1..Len(S.ins) : SupportedOp(S.ins[i].op) /\ (S.ins[i].op \in PushOps => Len(S.ins[i].w) <= NB)
+
+\* instructions flagged commutative whose value changes when the operands are swapped
+OrderBound(S, st0, vl) ==
+  {S.ins[i].id : i \in {j \in 1..Len(S.ins) :
+       /\ S.ins[j].comm /\ Len(S.ins[j].inp) = 2 /\ S.ins[j].op \in BinOps
+       /\ LET a == Ev(S, S.ins[j].inp[1], st0, vl)  b == Ev(S, S.ins[j].inp[2], st0, vl)
+          IN  Bin(S.ins[j].op, a, b) # Bin(S.ins[j].op, b, a)}}
 
 \* the block may need a deeper stack than the specification mentions (untouched elements)
 Depth(cs) == LET a == Len(cs.sfs.src)  b == MinDepth(cs.prog) IN IF a > b THEN a ELSE b
@@ -152,6 +163,7 @@ Check ==
                    THEN PrintT(<<"VERDICT", cs.id, g, "stack", done>>)
             ELSE IF ~MemEq(ref, m) THEN PrintT(<<"VERDICT", cs.id, g, "mem", done>>)
             ELSE IF ~StoEq(ref, m) THEN PrintT(<<"VERDICT", cs.id, g, "sto", done>>)
+            ELSE IF OrderBound(S, st0, val) # {} THEN PrintT(<<"VERDICT", cs.id, g, "commutative", OrderBound(S, st0, val)>>)
             ELSE TRUE
   /\ (done # MemOps(S) /\ \A id \in MemOps(S) \ done : ~Ready(done, id))
         => PrintT(<<"VERDICT", cs.id, g, "stuck", done>>)
